@@ -3,6 +3,7 @@ Line-protocol driver.  Reads case lines `Cxx <id> <seed> …` on stdin, runs the
 the property oracle, prints `<id> <verdict>` per line.  Pure function of its input.
 -/
 import DastardV.Proto
+import DastardV.Model.C09
 import DastardV.Model.C12
 import DastardV.Model.C14
 import DastardV.Model.C18
@@ -10,6 +11,7 @@ open DastardV
 
 def dispatch (prop : String) (rest : List String) : Verdict :=
   match prop with
+  | "C09" => C09.runLine rest
   | "C12" => C12.runLine rest
   | "C14" => C14.runLine rest
   | "C18" => C18.runLine rest
